@@ -301,8 +301,8 @@ def rule_variant_compare(rep, db, cfg):
             s = sx.show(a)
             dec[s] = b
         calls = [e for e in p.events if e[0] == "call"]
-        held_r = [k for k, v in dec.items() if k.startswith("holds<") and "(_right)" in k and v]
-        held_l = [k for k, v in dec.items() if k.startswith("holds<") and "(_left)" in k and v]
+        held_r = [k for k, v in dec.items() if k.startswith("holds<") and "(r_a1)" in k and v]
+        held_l = [k for k, v in dec.items() if k.startswith("holds<") and "(r_a0)" in k and v]
         out = sx.show(p.outcome[1]) if p.outcome[0] == "return" else p.outcome[0]
         if calls:
             same += 1
@@ -310,8 +310,8 @@ def rule_variant_compare(rep, db, cfg):
                 why = "the comparator is invoked %d times" % len(calls)
                 break
             a = [sx.show(x) for x in calls[0][1]]
-            if a[0] != "_compare" or not (a[1].startswith("alt_payload<") and a[1].endswith("(_left)")) or not (a[2].startswith("alt_payload<") and a[2].endswith("(_right)")):
-                why = "the comparator is invoked as %s(%s, %s); specification: compare(payload of _left, payload of _right)" % (a[0], a[1], a[2])
+            if a[0] != "r_a2" or not (a[1].startswith("alt_payload<") and a[1].endswith("(r_a0)")) or not (a[2].startswith("alt_payload<") and a[2].endswith("(r_a1)")):   # compare(left, right, comparator)
+                why = "the comparator is invoked as %s(%s, %s); specification: comparator(payload of the left variant, payload of the right variant)" % (a[0], a[1], a[2])
                 break
             if a[1].split("(")[0] != a[2].split("(")[0]:
                 why = "payloads of different alternatives are compared: %s vs %s" % (a[1], a[2])
@@ -345,7 +345,7 @@ def rule_try_call(rep, db):
     else:
         t = trys[0]
         exc = (fn.get("targs") or ["?"])[0]
-        calls = [n for n in F.walk(t.get("body")) if n.get("k") == "call" and n.get("recv") is not None and T.show(T.norm(u, n["recv"])) == "_function"]
+        calls = [n for n in F.walk(t.get("body")) if n.get("k") == "call" and n.get("recv") is not None and T.show(T.norm(u, n["recv"])) == "r_a0"]   # try_call(function, to_exception)
         rets = [r for r in F.walk(t.get("body")) if r.get("k") == "return"]
         if len(calls) != 1 or len(rets) != 1:
             why = "the function is not called exactly once inside the try block"
@@ -354,7 +354,7 @@ def rule_try_call(rep, db):
             why = "the handler does not catch exactly `%s const &` (it catches %s)" % (exc, [u.ty(h.get("t")) if not h.get("all") else "..." for h in hs])
         if not why:
             h = hs[0]
-            conv = [n for n in F.walk(h.get("body")) if n.get("k") == "call" and n.get("recv") is not None and T.show(T.norm(u, n["recv"])) == "_to_exception"]
+            conv = [n for n in F.walk(h.get("body")) if n.get("k") == "call" and n.get("recv") is not None and T.show(T.norm(u, n["recv"])) == "r_a1"]
             if len(conv) != 1:
                 why = "the conversion function is not invoked exactly once in the handler"
             else:
@@ -362,7 +362,7 @@ def rule_try_call(rep, db):
                 if a is None or a.get("k") != "ref" or a.get("id") != h.get("var_id"):
                     why = ("the conversion function receives `%s`, not the caught exception object itself (a copy of the handler type "
                            "slices a derived exception)" % (T.show(T.norm(u, conv[0]["args"][0])) if conv[0].get("args") else "?"))
-        outside = [n for n in F.walk(fn.get("body"), into_lambdas=False) if n.get("k") == "call" and n.get("recv") is not None and T.show(T.norm(u, n["recv"])) == "_function"]
+        outside = [n for n in F.walk(fn.get("body"), into_lambdas=False) if n.get("k") == "call" and n.get("recv") is not None and T.show(T.norm(u, n["recv"])) == "r_a0"]   # try_call(function, to_exception)
         if not why and len(outside) != 1:
             why = "the function is called outside the try block as well"
     (rep.fail if why else rep.ok)("TRY", "either::try_call", F.primary_site(fn), F.describe(fn)[:160], **({"why": why} if why else {"how": "try{f()}=>success; catch(E const& e){conv(e)}=>failure"}))
